@@ -114,6 +114,10 @@ def run(ctx):
         ctx.nontrivial.add(klass(r))
         if r["id"] in bad:
             ctx.reject(classify(r, bad[r["id"]]), f"spec rejects record: {bad[r['id']]}", r)
+    if thorough:
+        from .. import suite
+
+        suite.validate(ctx, "C19-")
     ctx.evaluations = len(recs)
 
     def corrupt(r):
